@@ -6,6 +6,7 @@ import Driver.CmdC15
 import Driver.CmdC16
 import Driver.CmdC09
 import Driver.CmdC19
+import Driver.CmdC10
 /-
   Driver.Extra — per-property command handlers living in their own files (`Driver/CmdCxx.lean`).
   Each returns `none` for commands that are not its own.
@@ -13,4 +14,4 @@ import Driver.CmdC19
 open Lean
 
 def extraHandlers : List (String → Json → Option (Except String Json)) :=
-  [handleC18, handleC17, handleC12, handleC15, handleC16, handleC09, handleC19]
+  [handleC18, handleC17, handleC12, handleC15, handleC16, handleC09, handleC19, handleC10]
